@@ -49,6 +49,9 @@ def taint_sinks(F, g, seeds, depth=0):
                 last = c.name.rsplit("::", 1)[-1]
                 if last in PASS and ai == 0:
                     work.append(place_local(c.dest))
+                elif last in ("max", "min") and c.name.startswith(("std::cmp::Ord::", "core::cmp::Ord::", "std::cmp::max", "std::cmp::min")):
+                    # max/min of estimates is an estimate
+                    work.append(place_local(c.dest))
                 elif last in CLOSURE_ADAPTORS and ai == 0 and depth < 2:
                     for a in c.args[1:]:
                         o = origin(g, a)
